@@ -277,6 +277,8 @@ LAYOUT_CFGS = (
     dict(rows=96, cols=32, grid=(8, 8), box=(32, 32), seed=3, kind="noise", offset_pow=10),
     dict(rows=120, cols=40, grid=(4, 4), box=(24, 24), seed=5, kind="gradient", offset_pow=13),
     dict(rows=80, cols=48, grid=(8, 4), box=(40, 20), seed=9, kind="noise", offset_pow=7),
+    dict(rows=128, cols=24, grid=(8, 8), box=(64, 16), seed=13, kind="gradient", offset_pow=3, slope_pow=-1),   # tall box, steep gradient
+    dict(rows=64, cols=96, grid=(8, 8), box=(16, 64), seed=17, kind="gradient", offset_pow=3, slope_pow=-1),    # wide box
 )
 
 
@@ -287,7 +289,7 @@ def _layout_case(ch, out):
     cfg = dict(rows=c["rows"], cols=c["cols"], grid=c["grid"], box=c["box"], cores=6, nslice=1, mask=True,
                naxis=2, nplanes=1, cube_index=0, bitpix=-32, bscale=None)
     content = dict(seed=c["seed"], kind=c["kind"], offset_pow=c["offset_pow"], offset_neg=False, sigma_pow=0,
-                   blank="none", blank_inf=False, blank_seed=0)
+                   blank="none", blank_inf=False, blank_seed=0, slope_pow=c.get("slope_pow", -6))
     img = bw.make_image(cfg, content)
     fn = bw.write_image(bw.fresh_path("c07l"), cfg, img)
     out.sample = {"layout_comparison": _cfg_str(cfg), "layouts": []}
@@ -453,7 +455,8 @@ def _case_body(ch, out, cfg, content, hot, line, nvar, fault_kind, other_layout,
         out.sample["runs"].append({"run": "other-layout", "status": r2.status, "layout": r2.layout})
         if not _basic(out, r2, cfg2, "second stripe layout"):
             return out
-        eligible = (content["kind"] in ("noise", "gradient") and content["blank"] == "none"
+        gentle = content["kind"] == "noise" or (content["kind"] == "gradient" and content.get("slope_pow", -6) <= -6)
+        eligible = (gentle and content["blank"] == "none"
                     and cfg["box"][0] * cfg["box"][1] >= 256 and cfg["rows"] >= cfg["box"][0]
                     and cfg["cols"] >= cfg["box"][1] and r2.layout != r0.layout)
         if eligible:
